@@ -34,16 +34,22 @@ CLAIM = dict(
     text="Lean theorems (any field, any finite face/cell index sets, abstract divergence D, arbitrary pinned cell): "
     "flux_reduced_equiv (full block system <=> Schur-complement system + flux formula, W diagonal invertible), "
     "pressure_equiv (under 1^T D = 0, zero-mean source, zero last rhs entry: reduced system <=> pinned pure-pressure system "
-    "with p_k = 0, lambda = 0 - the side conditions the code relies on), full_iff_pinned; dispatch theorems decided over the "
+    "with p_k = 0, lambda = 0 - the side conditions the code relies on), full_iff_pinned; BRIDGE to the executable model the driver "
+    "runs (every matrix tabulated from an entry formula over Q): model_full_is_abstract / model_reduced_is_abstract / "
+    "model_pinned_rows identify assembleFull, eliminateFlux, eliminateMultiplier with the abstract operators on Fin nf, Fin nc, and "
+    "model_linearSolve_sound proves that for each formulation the vector the model returns solves the assembled full system (inner "
+    "solve correctness is an explicit hypothesis = the back-end contract); 1^T D = 0 for the finite-volume divergence of any tensor "
+    "grid is imported from C06 (div_column_sum_zero), giving model_linearSolve_sound_fv; dispatch theorems decided over the "
     "acceptance matrix re-tabulated from the running code on every run (every documented formulation constructs and completes a "
     "linear_solve with the direct back-end, 'pressure' with all three back-ends, no accepted spelling falls through the "
     "branches); the hand-written CSC row/column removal is modelled array-operation by array-operation (np.arange/where/unique/"
-    "delete, index shift, indptr loop, unique, assert); csc_surgery_dense_partial proves, for arbitrary data, that its output "
-    "represents the matrix with rows/columns {k, last} dropped whenever the sparsity pattern passes the decidable certificate "
-    "surgeryCheck, and cached_pattern_reuse proves that the data-only refresh of later calls is the surgery of the new matrix; the "
-    "certificate (and the structural hypothesis patternOk of the unproved general statement) is evaluated by the model on the "
-    "pattern of every one of the 186 C07-range shapes in the thorough tier, where the model's arrays are also compared exactly "
-    "with the implementation's "
+    "delete, index shift, indptr loop, unique, assert) and csc_surgery_dense / csc_surgery_toDense prove IN GENERAL (every "
+    "well-formed pattern = decidable patternOk, arbitrary data) that it succeeds, removes two columns and represents the matrix with "
+    "rows/columns {k, last} dropped (proof per numpy step: rm_indices characterisation, the indptr loop leaves the number of kept "
+    "positions, np.unique merges exactly the two emptied columns, np.delete restricted to a column, row index shift); "
+    "cached_pattern_reuse proves that the data-only refresh of later calls is the surgery of the new matrix; patternOk is evaluated "
+    "by the model on the pattern of every one of the 186 C07-range shapes in the thorough tier, where the model's arrays are also "
+    "compared exactly with the implementation's "
     "(position tags as data). Public tie: every usable formulation x back-end solves "
     "random systems (positive face weights over three decades, zero-mean source) with an exact-arithmetic residual against the "
     "original full system within the stated tolerance, agrees pairwise and with the model's exact rational solution, and keeps "
@@ -475,6 +481,10 @@ def one_system(ctx, d, usable, shape, seed_tag, tight=False, only=None, data=Non
     if data is None:
         W = random_weights(ctx.rng, nf)
         systems = [random_rhs(ctx.rng, nf, nc) for _ in range(3)]
+        # the system is homogeneous (full_system_homogeneous): the same kind of right-hand side at physically small and
+        # large magnitudes (powers of two: exact scaling) must be solved to the same RELATIVE accuracy
+        systems[1] = systems[1] * 2.0 ** -40
+        systems[2] = systems[2] * 2.0 ** 20
         W2 = random_weights(ctx.rng, nf)
         data = (W, systems, W2)
     W, systems, W2 = data
@@ -595,7 +605,7 @@ def distance_oracle(ctx, d, usable, shape):
         ctx.cov.setdefault("distance_spread", []).append(max(vals.values()) - min(vals.values()))
 
 
-def schedule_oracle(ctx, d, usable, shape, L, every, num_iter):
+def schedule_oracle(ctx, d, usable, shape, L, every, num_iter, scale=1.0):
     """End-to-end Bregman runs whose `bregman_update` fires at iterations > 0 (the regularisation, hence the matrix, changes
     in the middle of the run; tolerances 0 so that the run gets there): every solution returned by the inner `linear_solve`
     must solve the (matrix, rhs) it was handed, and the distance must not depend on formulation / back-end."""
@@ -604,9 +614,10 @@ def schedule_oracle(ctx, d, usable, shape, L, every, num_iter):
     m1 = rng_np.uniform(0.2, 1.0, size=shape)
     m2 = rng_np.uniform(0.2, 1.0, size=shape)
     m2 *= m1.sum() / m2.sum()
+    m1, m2 = m1 * scale, m2 * scale  # physically small masses: the distance is homogeneous of degree one in the masses
     dims = [0.5 * n for n in shape]
     vals = {}
-    rp0 = {"kind": "schedule", "shape": list(shape), "L": L, "every": every, "num_iter": num_iter}
+    rp0 = {"kind": "schedule", "shape": list(shape), "L": L, "every": every, "num_iter": num_iter, "scale": scale}
     for (f, s), ok in usable.items():
         if not ok:
             continue
@@ -716,8 +727,9 @@ def oracle(ctx, d, voc, construct, accept):
                 ctx.fail(x["sig"], x["what"], {"kind": "system", "shape": list(shape), "pair": x.get("pair"), "seed": ctx.seed,
                                                "detail": {k: v for k, v in x.items() if k not in ("sig", "what")}})
     # (3) end-to-end: regularisation updates in the middle of a Bregman run (cached solver must be rebuilt)
-    for shape, L, every, n in [((5, 4), 1.0, 3, 7), ((3, 4), 0.5, 2, 5)] + ([((6, 5), 1.0, 5, 11), ((3, 3, 2), 2.0, 3, 7), ((7,), 0.1, 2, 6)] if ctx.big else []):
-        schedule_oracle(ctx, d, usable, shape, L, every, n)
+    for shape, L, every, n, sc in [((5, 4), 1.0, 3, 7, 1.0), ((3, 4), 0.5, 2, 5, 2.0 ** -40)] + (
+            [((6, 5), 1.0, 5, 11, 1.0), ((3, 3, 2), 2.0, 3, 7, 2.0 ** -30), ((7,), 0.1, 2, 6, 2.0 ** 20)] if ctx.big else []):
+        schedule_oracle(ctx, d, usable, shape, L, every, n, sc)
     # (4) end-to-end distance (Newton)
     for shape in [(4, 5), (3,)] + ([(3, 2, 2), (6, 6)] if ctx.big else []):
         distance_oracle(ctx, d, usable, shape)
@@ -797,7 +809,7 @@ def replay(data):
         voc = vocabulary(d)
         construct, accept = tabulate(d, voc)
         usable = {p: (v == "ok") for p, v in accept.items()}
-        schedule_oracle(ctx, d, usable, tuple(rp["shape"]), rp["L"], rp["every"], rp["num_iter"])
+        schedule_oracle(ctx, d, usable, tuple(rp["shape"]), rp["L"], rp["every"], rp["num_iter"], rp.get("scale", 1.0))
         for f in ctx.failures:
             print("observed :", f["signature"], "--", f["what"])
         print("required : every inner linear_solve solves the system it is handed; the distance is the same for every formulation x back-end")
